@@ -17,7 +17,10 @@ pub struct Space {
 }
 
 impl Space {
-    fn contains(&self, b: &[u8]) -> bool {
+    pub fn new(prefix: &[u8], sep: u8, alpha: &[Vec<u8>], depth: u32) -> Self {
+        Space { prefix: prefix.to_vec(), sep, alpha: alpha.iter().cloned().collect(), depth }
+    }
+    pub fn contains(&self, b: &[u8]) -> bool {
         if !b.starts_with(&self.prefix) {
             return false;
         }
